@@ -20,6 +20,7 @@ def run_program(rng):
     parent_of = {}
     counter = [0]
     pending = []
+    metrics_of = {}
 
     def make_completion(sid, is_async):
         if is_async:
@@ -33,12 +34,17 @@ def run_program(rng):
     async def node(depth, parent, budget):
         sid = counter[0]
         counter[0] += 1
+        # a scope created after its would-be parent already completed cannot delay that completion any more
+        if parent is not None and parent in metrics_of and metrics_of[parent]._completed.done():
+            parent = None
         parent_of[sid] = parent
         use_async = rng.random() < 0.5
         cm = ctx.scope(f"s{sid}", completion=make_completion(sid, rng.random() < 0.4))
         kids = []
 
         async def body():
+            from haiway.context.metrics import MetricsContext
+            metrics_of[sid] = MetricsContext._context.get()
             events.append(("enter", sid))
             for _ in range(rng.randint(0, 2)):
                 if depth <= 0 or budget[0] <= 0:
@@ -51,11 +57,12 @@ def run_program(rng):
                     kids.append(ctx.spawn(node, depth - 1, sid, budget))
                 else:
                     async def late(d=depth - 1):
-                        await asyncio.sleep(rng.choice([0, 0, 0.01]))
+                        await asyncio.sleep(rng.choice([0, 0, 0.01, 0.02, 0.05]))
                         await node(d, sid, budget)
                     t = asyncio.ensure_future(late())
                     pending.append(t)
                 await asyncio.sleep(0)
+            await asyncio.sleep(rng.choice([0, 0, 0.01, 0.03]))
         try:
             if use_async:
                 async with cm:
@@ -107,8 +114,10 @@ def run_program(rng):
         for d in descendants(s):
             ex = [i for i, e in enumerate(events) if e == ("exit", d)]
             en = [i for i, e in enumerate(events) if e == ("enter", d)]
-            if en and (not ex or False):
+            if en and not ex:
                 return [f"scope s{d} never exited"]
+            if en and ex and ex[0] > comps[0]:
+                return [f"completion callback of s{s} fired before nested scope s{d} was left (tree {parent_of})"]
         m = [e for e in events if e[0] == "completed" and e[1] == s][0][2]
         if not m.is_completed:
             return [f"metrics of s{s} do not report completed after the callback"]
